@@ -740,6 +740,11 @@ func (w *World) checkAgreement(hs []*Node) {
 			sum, err := crypto.AggregateBLSPublicKeys(a0)
 			if err == nil && !sum.Equals(ref.gpk) {
 				w.viol("C07", "keys.consistent", "groupkey-vs-vectors:"+protoName[w.proto], "group key is not the sum of A_0 over the qualified dealers %v-complement", dq)
+				if len(dq) > 0 {
+					// C08: "disqualified by every honest participant" means left out of the keys, not only
+					// reported through the callback
+					w.viol("C08", "bad-dealing-accepted", "disqualified-dealer-in-keys:"+protoName[w.proto], "dealers %v were disqualified (callbacks) at every honest participant, but the returned group key is not the sum over the remaining dealers", dq)
+				}
 				return
 			}
 			w.probe("groupkey_recomputed_from_vectors")
